@@ -22,8 +22,8 @@ CHECKS = {
             "For every glob / `any` combinator that reports is_exhaustive Always, z3 decides that no canonical path beneath a matched canonical path is unmatched (one query over all paths and all descendants); witnesses replayed through the real is_match.",
             "Trusted base as C01 without the reference semantics (the obligation only uses the program's own language). One-directional: Sometimes/Never are not constrained.",
             "5 C09"),
-    "C10": ("relang", TV, "SMT regular-language inclusion: matched canonical paths vs. the language of paths with lo..hi components, per program",
-            "For every glob / combinator z3 decides that every canonical path of the pattern's rootedness it matches has a component count inside the reported depth variance; witnesses replayed through the real is_match. (The range algebra lemma of engine B is added when built.)",
+    "C10": ("relang+kani", TV, "SMT regular-language inclusion: matched canonical paths vs. the language of paths with lo..hi components, per program",
+            "For every glob / combinator z3 decides that every canonical path of the pattern's rootedness it matches has a component count inside the reported depth variance; witnesses replayed through the real is_match. Engine B: the range algebra those numbers come from is model checked sound (x in a, y in b => x+y in a(+)b; union contains both; products against a constant table of repetition ranges; opened bounds widen) for all operands below 2^62.",
             "Trusted base as C09. Root not counted as a component; empty path excluded (no components).",
             "5 C10"),
     "C11": ("relang", TV, "SMT regular-language emptiness (z3 seq/re theory) on the pattern compiled by the real code, per program, for all paths",
@@ -84,6 +84,13 @@ CHECKS.update({
             "Routes: Display+new, clone, into_owned, FromStr, TryFrom, any([text]) vs any([compiled]) vs any([owned]) vs nested, partition of borrowed vs owned. Patterns read through the hook; z3 decides language equality; depth/text/has_root/is_exhaustive/captures/semantic literals compared; matched().get(i) for i <= n+1 compared borrowed vs to_owned vs into_owned and across routes on a matched and an unmatched solver witness.",
             "Apart from language equality the comparisons are concrete per program (stated).",
             "5 C19"),
+})
+
+CHECKS.update({
+    "C05": ("kani", MC, "bounded model checking (Kani/CBMC) of the real range-algebra kernels for all operands satisfying the representation invariant",
+            "Kernel level: conjunction / disjunction / product / translation / bound conversion of BoundedVariantRange, NaturalRange and TokenVariance<Depth|Size> are model checked panic-free for every operand shape and all magnitudes below 2^31 (sums), full 64-bit width (unions, conversions), products with the repetition range from a constant table. Counterexamples are mapped to expressions and reproduced through Glob::new in a subprocess before being reported; panics met by the engine-A expression sweep are reported too (labelled enumeration).",
+            "Parser totality, stack depth for deep nesting, and the regex back end's own errors are outside the claim (not symbolically executable here). Overflow panics near 2^64 are a known finding.",
+            "5 C05"),
 })
 
 NOT_APPLICABLE = {
